@@ -29,6 +29,7 @@ def sessionStep (s : DState) : List String → Option (DState × String)
     | none => some (s, "bad-op")
   | ["case", n] => some (s.resetCase, s!"case {n}")
   | ["note", _] => some (s, "ok")
+  | ["deepfmt", _] => some (s, "ok")   -- implementation-side only: formatting a deep chain on a small stack (C19 totality)
   | ["reset"] => some ({ s.resetCase with statics := [], mask := 0xFFFFFFFF }, "ok")
   | _ => none
 
